@@ -32,6 +32,16 @@ type Store struct {
 	Fail func(op string, key uint, n int) bool
 	// OnSave observes raw values at the boundary; Mu held.
 	OnSave func(key uint, raw []byte)
+	// Inner, when set, is the real store behind the map mirror (FileSystem).
+	Inner Persistence
+}
+
+// Persistence mirrors mqtt.Persistence.
+type Persistence interface {
+	Load(key uint) ([]byte, error)
+	Save(key uint, value net.Buffers) error
+	Delete(key uint) error
+	List() (keys []uint, err error)
 }
 
 func newStore(w *World) *Store {
@@ -97,7 +107,14 @@ func (s *Store) Load(key uint) ([]byte, error) {
 	fail, call := s.begin("load", key, nil)
 	var v []byte
 	if !fail {
-		if cur, ok := s.cur[key]; ok {
+		if s.Inner != nil {
+			iv, err := s.Inner.Load(key)
+			if err != nil {
+				s.w.log(Event{Kind: "store.inner.error", Key: key, Err: err.Error()})
+				fail = true
+			}
+			v = iv
+		} else if cur, ok := s.cur[key]; ok {
 			v = append([]byte{}, cur...)
 		}
 	}
@@ -122,6 +139,12 @@ func (s *Store) Save(key uint, value net.Buffers) error {
 	fail, call := s.begin("save", key, flat)
 	if s.OnSave != nil {
 		s.OnSave(key, flat)
+	}
+	if !fail && s.Inner != nil {
+		if err := s.Inner.Save(key, net.Buffers{flat}); err != nil {
+			s.w.log(Event{Kind: "store.inner.error", Key: key, Err: err.Error()})
+			fail = true
+		}
 	}
 	if !fail {
 		if s.w.TakeSnaps {
@@ -149,6 +172,12 @@ func (s *Store) Delete(key uint) error {
 	s.w.Mu.Lock()
 	defer s.w.Mu.Unlock()
 	fail, call := s.begin("delete", key, nil)
+	if !fail && s.Inner != nil {
+		if err := s.Inner.Delete(key); err != nil {
+			s.w.log(Event{Kind: "store.inner.error", Key: key, Err: err.Error()})
+			fail = true
+		}
+	}
 	if !fail {
 		if _, ok := s.cur[key]; ok {
 			if s.w.TakeSnaps {
@@ -181,6 +210,9 @@ func (s *Store) List() ([]uint, error) {
 	s.end("list", 0, nil, fail, call)
 	if fail {
 		return nil, ErrStore
+	}
+	if s.Inner != nil {
+		return s.Inner.List()
 	}
 	return Keys(s.cur), nil
 }
